@@ -12,15 +12,14 @@ use crate::authoring::*;
 
 fn fwd(op: &Op, _ctx: &dyn Context, operands: &mut dyn CoordinateSet) -> usize {
     let grids = &op.params.grids;
+    let use_null_grid = op.params.boolean("null_grid");
     let ellps = op.params.ellps(0);
 
     let mut successes = 0_usize;
     let n = operands.len();
 
-    // Nothing to do?
-    if grids.is_empty() {
-        return n;
-    }
+    // Without any grids at all, every point is outside of them: only the
+    // null grid (a geoid without slopes) can still provide an answer
 
     for i in 0..n {
         let mut coord = operands.get_coord(i);
@@ -36,19 +35,19 @@ fn fwd(op: &Op, _ctx: &dyn Context, operands: &mut dyn CoordinateSet) -> usize {
         // The longitude step corresponding to a 1 m linear step along the local parallel
         let dlon = (lat.cos() * ellps.prime_vertical_radius_of_curvature(lat)).recip();
 
-        let Some(origin) = grids_at(grids, &coord, false) else {
+        let Some(origin) = grids_at(grids, &coord, use_null_grid) else {
             operands.set_coord(i, &Coor4D::nan());
             continue;
         };
 
         coord[1] += dlat;
-        let Some(lat_1) = grids_at(grids, &coord, false) else {
+        let Some(lat_1) = grids_at(grids, &coord, use_null_grid) else {
             operands.set_coord(i, &Coor4D::nan());
             continue;
         };
         coord[1] = lat;
         coord[0] += dlon;
-        let Some(lon_1) = grids_at(grids, &coord, false) else {
+        let Some(lon_1) = grids_at(grids, &coord, use_null_grid) else {
             operands.set_coord(i, &Coor4D::nan());
             continue;
         };
